@@ -17,6 +17,7 @@ RULE = ("enumeration, sharded: all 3600 product ids; all 13149 dates 2014-01-01.
         "all 20 scan suffixes; file names = file type x polarisation(5 incl. none) x product id x scan variant(21) on a rotating "
         "date (quick: 20k sampled shapes, thorough: all ~3.8e5); near-misses: every single-character replacement by one "
         "representative of each character class (incl. non-ASCII decimal digits and letters), every single deletion, insertions and trailing garbage (incl. one line feed, CR, CRLF, tab, NUL, U+2028) on sampled valid strings; file-name near-misses also through filename_to_groupname and, renamed inside a product, through open_alos2 "
+        "plus every product id that differs from a valid one in one component over that component's whole alphabet (all 17576 three-letter modes, A-Z0-9_ for direction/option/projection/orbit, all d.d levels), near-miss product / scene ids arriving through summary.txt "
         "(quick ~6k, thorough ~60k), classified by the independent recogniser; 96 (quick) / 600 (thorough) ids end to end. "
         "evaluations = strings decoded; distinct = distinct strings (union over all shards of 48-bit hashes of the decoded strings, counted)")
 ASSUMPTIONS = ["two-digit years are resolved relative to the current year (2026 => 1976..2075), which covers 2014..2049",
@@ -24,7 +25,7 @@ ASSUMPTIONS = ["two-digit years are resolved relative to the current year (2026 
                "'scan' in the uniqueness clause is the scan number (a product has either B or F scans)",
                "near-misses are single edits of strings whose date lies in 2014..2049 (multi-edit strings such as '011305' -> 2005-01-13 via dateutil's month/day swap are outside the stated quantifier; recorded in DESIGN.md)"]
 REQUIRED_OBS = ["product_ids", "scene_dates", "file_names", "near_misses_rejected", "group_names", "group_name_near_misses",
-                "end_to_end_near_misses"]
+                "end_to_end_near_misses", "component_alphabet_ids", "summary_near_misses"]
 NSHARD = 32
 CLASS_REPS = "A9_.-h \u0663\uff13\u00c4"  # incl. an Arabic-Indic digit, a full-width digit and a non-ASCII capital
 
@@ -112,6 +113,18 @@ def run_case(i, tier, seed):
             assert want is not None and want["date"] == d
             check_decode(decoders.decode_scene_id, s, want, "scene id")
             obs["scene_dates"] += 1
+        # ---- product-id components over their whole alphabet: every 3-letter mode, every letter / digit elsewhere
+        if i == 1:
+            import string
+
+            base = "WBDR1.5GUD"
+            cands = {m + base[3:] for m in ("".join(t) for t in itertools.product(string.ascii_uppercase, repeat=3))}
+            for pos in (3, 7, 8, 9):
+                cands |= {base[:pos] + c + base[pos + 1:] for c in string.ascii_uppercase + string.digits + "_"}
+            cands |= {base[:4] + f"{a}.{b}" + base[7:] for a in string.digits for b in string.digits}
+            for s_ in sorted(cands):
+                r = check_decode(decoders.decode_product_id, s_, idlang.decode_product_id(s_), "product id (component alphabet)")
+                obs["component_alphabet_ids"] = obs.get("component_alphabet_ids", 0) + 1
         # ---- scan suffixes
         if i == 0:
             for s in [a + b for a in "BF" for b in idlang.DIGITS]:
@@ -246,6 +259,30 @@ def run_case(i, tier, seed):
                         violations.append({"what": f"product with the image file name {bad!r} failed with {type(e).__name__} instead of ValueError: {str(e)[:120]}", "detail": {}})
                 finally:
                     synth.uninstall(files2, root2, "memory")
+            # near-miss product / scene ids arriving through summary.txt: the open must fail with ValueError
+            for key, good, ref in ((b'Pds_ProductID="', pid, idlang.decode_product_id), (b'Scs_SceneID="', info["names"]["scene"], idlang.decode_scene_id)):
+                cands = [x for x in near_misses(rng, good, 3) if ref(x) is None and x.isascii() and x.isprintable() and '"' not in x and x == x.strip()]
+                old = key + good.encode() + b'"'
+                if not cands or old not in files["summary.txt"]:
+                    continue
+                bad = rng.choice(cands)
+                files3 = dict(files)
+                files3["summary.txt"] = files["summary.txt"].replace(old, key + bad.encode() + b'"')
+                root3 = harness.unique_root("memory", "c15s")
+                url3 = synth.install(files3, root3, "memory")
+                try:
+                    obs["summary_near_misses"] = obs.get("summary_near_misses", 0) + 1
+                    strings += 1
+                    seen.add(_h("sum-near:" + bad))
+                    try:
+                        harness.open_tree(url3, use_cache=False)
+                        violations.append({"what": f"summary with {key.decode()}{bad}\" (outside the documented language) opened", "detail": {}})
+                    except ValueError:
+                        pass
+                    except BaseException as e:
+                        violations.append({"what": f"summary with {key.decode()}{bad}\" failed with {type(e).__name__} instead of ValueError: {str(e)[:120]}", "detail": {}})
+                finally:
+                    synth.uninstall(files3, root3, "memory")
         sample = {"end_to_end_product_id": pid}
     return {"sig": f"shard{i}", "evals": strings, "violations": violations[:8], "obs": obs, "sample": sample, "strings": strings,
             "seen": sorted(seen)}
